@@ -2,6 +2,7 @@ package rules
 
 import (
 	"fmt"
+	"go/constant"
 	"go/token"
 	"go/types"
 	"strings"
@@ -267,6 +268,7 @@ func checkC10(c *Ctx) {
 	c.R.Floor("G5.layout", 2)
 	c.R.Floor("G3.once", 1)
 	c.scopeGuard("scope", len(scope), 3, "library functions reachable from the descriptor readers")
+	c.ruleTimeRange("G17.time", "efi/signature.ReadEFIVariableAuthencation2")
 	c.ruleAppendOnly("G15.append", "efi/signature.WriteWinCertificate", "efi/signature.WriteWinCertificateUEFIGUID", "efi/signature.WriteEFIVariableAuthencation2")
 	c.R.Floor("G15.append", 3)
 	c.ruleShortCopy("G16.short", "efi/signature.ReadWinCertificate", "efi/signature.ReadWinCertificateUEFIGUID", "efi/signature.ReadEFIVariableAuthencation2")
@@ -605,5 +607,262 @@ func (c *Ctx) ruleShortCopy(rule string, specs ...string) {
 		if n == 0 {
 			c.R.Okf(rule, name(fn), "scan", c.Pos(fn.Pos()), "no fixed-width field is filled by copy() from bytes of input-dependent length")
 		}
+	}
+}
+
+// efiTimeRanges: the values UEFI (section 8.3, EFI_TIME) allows per field.
+var efiTimeRanges = map[string][][2]int64{
+	"Year": {{1900, 9999}}, "Month": {{1, 12}}, "Day": {{1, 31}}, "Hour": {{0, 23}}, "Minute": {{0, 59}}, "Second": {{0, 59}},
+	"Nanosecond": {{0, 999999999}}, "TimeZone": {{-1440, 1440}, {2047, 2047}},
+}
+
+// ruleTimeRange (G17.time): the descriptor decoder may validate the timestamp,
+// but it must not refuse a value the specification allows: every comparison
+// of an EFI_TIME field with a constant whose outcome leads to rejection on all
+// paths is evaluated on the boundary values of the field's legal range.
+func (c *Ctx) ruleTimeRange(rule, spec string) {
+	fn := c.Fn(rule, spec)
+	if fn == nil {
+		return
+	}
+	dv := c.deepViewOf(fn, 4)
+	timeField := func(v ssa.Value) string {
+		id := ir.FieldID(ir.StripConv(v))
+		if ld, ok := ir.StripConv(v).(*ssa.UnOp); ok && ld.Op == token.MUL {
+			id = ir.FieldID(ld.X)
+		}
+		if strings.HasPrefix(id, utilPkg+".EFITime.") {
+			return strings.TrimPrefix(id, utilPkg+".EFITime.")
+		}
+		return ""
+	}
+	// all paths from the edge end in a rejecting return
+	var rejects func(g *ssa.Function, from, to int) bool
+	rejects = func(g *ssa.Function, from, to int) bool {
+		seen := map[[2]int]bool{}
+		var walk func(b, pred *ssa.BasicBlock) bool
+		walk = func(b, pred *ssa.BasicBlock) bool {
+			k := [2]int{b.Index, pred.Index}
+			if seen[k] {
+				return true
+			}
+			seen[k] = true
+			if ret, ok := b.Instrs[len(b.Instrs)-1].(*ssa.Return); ok {
+				if len(ret.Results) == 0 {
+					return false
+				}
+				onEdge := func(v ssa.Value) ssa.Value {
+					if ph, ok := v.(*ssa.Phi); ok && ph.Block() == b {
+						for i, p := range b.Preds {
+							if p == pred {
+								return ph.Edges[i]
+							}
+						}
+					}
+					return v
+				}
+				last := onEdge(ret.Results[len(ret.Results)-1])
+				if isErrorType(last.Type()) {
+					return definitelyNonNilErr(last, 0)
+				}
+				first := onEdge(ret.Results[0])
+				if isBoolType(first.Type()) {
+					kc, ok := first.(*ssa.Const)
+					return ok && kc.Value != nil && !constant.BoolVal(kc.Value)
+				}
+				return false
+			}
+			if len(b.Succs) == 0 {
+				return true // panic / exit
+			}
+			for _, s := range b.Succs {
+				if !walk(s, b) {
+					return false
+				}
+			}
+			return true
+		}
+		return walk(g.Blocks[to], g.Blocks[from])
+	}
+	holds := func(op token.Token, v, k int64) bool {
+		switch op {
+		case token.LSS:
+			return v < k
+		case token.LEQ:
+			return v <= k
+		case token.GTR:
+			return v > k
+		case token.GEQ:
+			return v >= k
+		case token.EQL:
+			return v == k
+		case token.NEQ:
+			return v != k
+		}
+		return false
+	}
+	type atom struct {
+		field string
+		op    token.Token
+		k     int64
+		truth bool
+	}
+	atomOf := func(ce ir.CondEdge) (atom, bool) {
+		bo, ok := ce.Cond.(*ssa.BinOp)
+		if !ok {
+			return atom{}, false
+		}
+		op := bo.Op
+		f, kv := timeField(bo.X), bo.Y
+		if f == "" {
+			f, kv = timeField(bo.Y), bo.X
+			switch op { // k OP field  ==  field OP' k
+			case token.LSS:
+				op = token.GTR
+			case token.LEQ:
+				op = token.GEQ
+			case token.GTR:
+				op = token.LSS
+			case token.GEQ:
+				op = token.LEQ
+			}
+		}
+		k, isK := ir.ConstInt(ir.StripConv(kv))
+		if !isK {
+			// a package-level variable that only its initialiser assigns
+			if ld, isLd := ir.StripConv(kv).(*ssa.UnOp); isLd && ld.Op == token.MUL {
+				if gl, isG := ld.X.(*ssa.Global); isG && gl.Pkg != nil {
+					if init, g2 := c.globalInit(gl.Pkg.Pkg.Path(), gl.Name()); g2 != nil && c.globalWrittenOutsideInit(g2) == "" {
+						k, isK = init[""]
+					}
+				}
+			}
+		}
+		if f == "" || !isK {
+			return atom{}, false
+		}
+		return atom{f, op, k, ce.Truth}, true
+	}
+	n := 0
+	doneFn := map[*ssa.Function]bool{}
+	for _, fr := range dv.framesInOrder() {
+		g := fr.fn
+		if doneFn[g] || !c.P.InLib(g) {
+			continue
+		}
+		doneFn[g] = true
+		for _, ce := range ir.CondEdges(g) {
+			at, ok := atomOf(ce)
+			if !ok || efiTimeRanges[at.field] == nil {
+				continue
+			}
+			if !rejects(g, ce.Edge.From, ce.Edge.To) {
+				continue
+			}
+			// a bool helper: its callers in the view must reject on false
+			if g != fn && g.Signature.Results().Len() == 1 && isBoolType(g.Signature.Results().At(0).Type()) {
+				callersReject := true
+				for _, di := range dv.order {
+					call, isC := di.i.(*ssa.Call)
+					if !isC || ir.Callee(call) != g {
+						continue
+					}
+					rejecting := false
+					for _, ce2 := range ir.CondEdges(di.fr.fn) {
+						if ce2.Cond == ssa.Value(call) && !ce2.Truth && rejects(di.fr.fn, ce2.Edge.From, ce2.Edge.To) {
+							rejecting = true
+						}
+					}
+					if !rejecting {
+						callersReject = false
+					}
+				}
+				if !callersReject {
+					continue
+				}
+			}
+			n++
+			// same-field constraints that hold on the way to this comparison
+			var pre []atom
+			otherField := false
+			others := map[string][]atom{}
+			for _, dc := range ir.DominatingConds(g, g.Blocks[ce.Edge.From]) {
+				if a2, ok := atomOf(dc); ok {
+					if a2.field == at.field {
+						pre = append(pre, a2)
+					} else if a2.op == token.EQL || a2.op == token.NEQ {
+						// a rule that couples two fields (a day that depends on the month): not judged
+						otherField = true
+					} else {
+						others[a2.field] = append(others[a2.field], a2)
+					}
+				}
+			}
+			// range checks of other fields that dominate this one: the path is taken by a
+			// legal timestamp only if each of them admits a legal value
+			infeasible := false
+			for f2, as := range others {
+				sat := false
+				for _, rg := range efiTimeRanges[f2] {
+					cands := []int64{rg[0], rg[0] + 1, (rg[0] + rg[1]) / 2, rg[1] - 1, rg[1]}
+					for _, a2 := range as {
+						cands = append(cands, a2.k-1, a2.k, a2.k+1)
+					}
+					for _, v := range cands {
+						if v < rg[0] || v > rg[1] {
+							continue
+						}
+						all := true
+						for _, a2 := range as {
+							if holds(a2.op, v, a2.k) != a2.truth {
+								all = false
+							}
+						}
+						if all {
+							sat = true
+						}
+					}
+				}
+				if efiTimeRanges[f2] == nil {
+					sat = true
+				}
+				if !sat {
+					infeasible = true
+				}
+			}
+			if infeasible {
+				c.R.Okf(rule, name(fn), fmt.Sprintf("%s:%s%s%d=%v", strings.TrimPrefix(name(g), M+"/"), at.field, at.op, at.k, at.truth), c.IPos(ce.If), "the comparison is reached only by timestamps that another field's check has already put outside the legal range")
+				continue
+			}
+			witness := int64(-1 << 62)
+			for _, rg := range efiTimeRanges[at.field] {
+				for _, v := range []int64{rg[0], rg[0] + 1, (rg[0] + rg[1]) / 2, rg[1] - 1, rg[1], at.k - 1, at.k, at.k + 1} {
+					if v < rg[0] || v > rg[1] {
+						continue
+					}
+					okPre := true
+					for _, p := range pre {
+						if holds(p.op, v, p.k) != p.truth {
+							okPre = false
+						}
+					}
+					if okPre && holds(at.op, v, at.k) == at.truth {
+						witness = v
+					}
+				}
+			}
+			construct := fmt.Sprintf("%s:%s%s%d=%v", strings.TrimPrefix(name(g), M+"/"), at.field, at.op, at.k, at.truth)
+			switch {
+			case witness == -1<<62:
+				c.R.Okf(rule, name(fn), construct, c.IPos(ce.If), "the comparison rejects only values outside the range UEFI allows for the field")
+			case otherField:
+				c.R.Infof(rule, name(fn), construct, c.IPos(ce.If), fmt.Sprintf("not decided for this shape: %s == %d is rejected here, under a condition on another field of the timestamp", at.field, witness))
+			default:
+				c.R.Violf(rule, name(fn), construct, c.IPos(ce.If), "the decoder refuses no timestamp that UEFI allows", fmt.Sprintf("a descriptor whose %s is %d (legal: %v) is rejected by the comparison %s %s %d in %s: a well-formed signed update does not decode", at.field, witness, efiTimeRanges[at.field], at.field, at.op, at.k, name(g)))
+			}
+		}
+	}
+	if n == 0 {
+		c.R.Okf(rule, name(fn), "scan", c.Pos(fn.Pos()), "the decoder rejects no descriptor because of the value of a timestamp field")
 	}
 }
